@@ -41,7 +41,7 @@ ASSUMPTIONS = [
 ]
 PROBES = ["depth_changed_during_run", "shift_none_grows", "shift_on_empty", "additive_after_shift", "alias_probe_get", "alias_probe_set",
           "rejected_additive_empty", "rejected_negative_index", "rejected_no_index", "rejected_two_indices_get", "rejected_get_beyond_depth",
-          "rejected_shift_negative", "rejected_shift_location", "set_both_locations", "depth_ge3_filled", "init_all_indices"]
+          "rejected_shift_negative", "rejected_shift_location", "set_both_locations", "depth_ge3_filled", "init_all_indices", "depth3_window_filled"]
 
 LOCS = (pp.TIME_STEP_SOLUTIONS, pp.ITERATE_SOLUTIONS)
 
@@ -438,7 +438,19 @@ def run_eqsys(ch, tr: Trace) -> None:
     tr.emit("end")
 
 
+def _driver_run(ch, tr):
+    from engines import driver_sim
+
+    return driver_sim.make_run("C08")(ch, tr)
+
+
 WORKLOADS = [
+    Workload(
+        name="driver", run=_driver_run, runs={"quick": 128, "thorough": 8_000}, chunk=8, run_timeout=300.0,
+        real=["SolutionStrategy.update_solution / after_nonlinear_iteration (depth = len(time_step_indices) / len(iterate_indices), 1-3) inside the real time loop and Newton loop under injected solver faults"],
+        stub=["fault-injecting overrides of check_convergence / solve_linear_system", "save_data_time_step is a no-op"],
+        note="anchor 2 of the property: model usage of the sliding window, observed after every converged/failed step",
+    ),
     Workload(
         name="helpers", run=run_helpers, runs={"quick": 40_000, "thorough": 3_000_000}, chunk=1000, run_timeout=30.0,
         real=["porepy.numerics.ad.ad_utils.set_solution_values / get_solution_values / shift_solution_values / _validate_indices"],
